@@ -409,6 +409,8 @@ class Rig:
             by_timer = rig.in_timeout or sys._getframe(1).f_code.co_name == "_handle_timeout"
             if not by_timer:
                 rig.mark("tclose")
+            elif not rig.in_timeout:
+                rig.net.trace.append(("stallfire",))     # a real timer fired
             return tclose()
 
         t.open, t.close = _topen, _tclose
